@@ -221,5 +221,127 @@ theorem CoinsP.put_unspent {addrs : List Addr} {ready : List Wid} {u : AMap.T (W
     subst e2; subst e3; subst hu
     exact hc c hcr
   · simp only [e, if_false] at hu; exact h w' tx' idx' blk' c hw hu hcr
+-- ------------------------------------------------------------------ the loop invariant of the apply phase
+
+/-- `g`, `s`: ghost and real store when the block starts; `gi`, `si`: now.  Bucket by bucket. -/
+structure SimInv (addrs : List Addr) (ready : List Wid) (bm : BlockMeta) (g s gi si : Store) : Prop where
+  unspent : si.unspent = gi.unspent
+  game : si.game = gi.game
+  balance : si.balance = gi.balance
+  sync : si.sync = gi.sync
+  syncedTo : si.syncedTo = gi.syncedTo
+  status : si.status = gi.status
+  adr : si.addrs = gi.addrs
+  cred : CredP addrs bm g.credits s.credits gi.credits si.credits
+  coins : CoinsP addrs ready gi.unspent gi.credits
+  debS : SubT gi.debits si.debits
+  deb : TabP (fun k : CredKey => k.blk = bm) g.debits s.debits gi.debits si.debits
+  txS : SubT gi.txrecs si.txrecs
+  tx : TabP (fun k : TxId × BlockMeta => k.2 = bm) g.txrecs s.txrecs gi.txrecs si.txrecs
+  blk : TabP (fun h : Nat => h = bm.height) g.blocks s.blocks gi.blocks si.blocks
+
+variable {addrs : List Addr} {ready : List Wid} {bm : BlockMeta} {g s gi si : Store}
+
+theorem simInv_init (hSub : Sub addrs g s) (hF : Fresh bm g) (hFs : AMap.get s.blocks bm.height = none)
+    (hC : CoinsOK addrs ready g) : SimInv addrs ready bm g s g s := by
+  refine ⟨hSub.unspent, hSub.game, hSub.balance, hSub.sync, hSub.syncedTo, hSub.status, hSub.addrs,
+    ⟨hSub.credits, ?_, fun _ _ => Or.inl ⟨rfl, rfl⟩, ?_⟩, hC, hSub.debits, ⟨?_, fun _ _ => rfl, fun _ _ => rfl⟩,
+    hSub.txrecs, ⟨?_, fun _ _ => rfl, fun _ _ => rfl⟩, ⟨?_, fun _ _ => rfl, fun _ _ => rfl⟩⟩
+  · intro k hk
+    have hg : AMap.get g.credits k = none := by cases k; cases hk; exact hF.credits _ _
+    rcases hSub.credits k with e | ⟨e, _⟩
+    · exact e
+    · rw [e, hg]
+  · intro k cr hk hcr
+    have hg : AMap.get g.credits k = none := by cases k; cases hk; exact hF.credits _ _
+    rw [hg] at hcr; cases hcr
+  · intro k hk
+    have hg : AMap.get g.debits k = none := by cases k; cases hk; exact hF.debits _ _
+    rcases hSub.debits k with e | e
+    · exact e
+    · rw [e, hg]
+  · intro k hk
+    have hg : AMap.get g.txrecs k = none := by cases k; cases hk; exact hF.txrecs _
+    rcases hSub.txrecs k with e | e
+    · exact e
+    · rw [e, hg]
+  · intro k hk
+    cases hk
+    rw [hFs, hF.blocks]
+
+/-- the pending-side functions move neither side -/
+theorem simInv_minedEq {gi' si' : Store} (h : SimInv addrs ready bm g s gi si) (hg : MinedEq gi gi')
+    (hs : MinedEq si si') : SimInv addrs ready bm g s gi' si' := by
+  constructor
+  · rw [hs.unspent, hg.unspent]; exact h.unspent
+  · rw [hs.game, hg.game]; exact h.game
+  · rw [hs.balance, hg.balance]; exact h.balance
+  · rw [hs.sync, hg.sync]; exact h.sync
+  · rw [hs.syncedTo, hg.syncedTo]; exact h.syncedTo
+  · rw [hs.status, hg.status]; exact h.status
+  · rw [hs.addrs, hg.addrs]; exact h.adr
+  · rw [hs.credits, hg.credits]; exact h.cred
+  · rw [hg.unspent, hg.credits]; exact h.coins
+  · rw [hs.debits, hg.debits]; exact h.debS
+  · rw [hs.debits, hg.debits]; exact h.deb
+  · rw [hs.txrecs, hg.txrecs]; exact h.txS
+  · rw [hs.txrecs, hg.txrecs]; exact h.tx
+  · rw [hs.blocks, hg.blocks]; exact h.blk
+
+theorem simInv_recordMinedTx (h : SimInv addrs ready bm g s gi si) (tr : TxRec) :
+    SimInv addrs ready bm g s (recordMinedTx gi tr bm) (recordMinedTx si tr bm) := by
+  refine ⟨h.unspent, h.game, h.balance, h.sync, h.syncedTo, h.status, h.adr, h.cred, h.coins, h.debS, h.deb,
+    h.txS.put _ _, h.tx.put rfl _, ?_⟩
+  have e := h.blk.new bm.height rfl
+  unfold recordMinedTx
+  dsimp only
+  cases hb : AMap.get gi.blocks bm.height with
+  | none =>
+    rw [hb] at e; rw [e]
+    exact h.blk.put rfl _
+  | some v =>
+    obtain ⟨bh, txs⟩ := v
+    rw [hb] at e; rw [e]
+    exact h.blk.put rfl _
+
+theorem simInv_spendApply (h : SimInv addrs ready bm g s gi si) (bals : Bals) (tr : TxRec) (rel : Rel)
+    {i : Inp} {cblk : BlockMeta} {c : Credit}
+    (hgc : AMap.get gi.credits ⟨i.tx, cblk, i.idx⟩ = some c) (hsc : AMap.get si.credits ⟨i.tx, cblk, i.idx⟩ = some c)
+    (hsh : addrs.contains c.sh = false) :
+    SimInv addrs ready bm g s (spendApply tr bm (gi, bals) rel i cblk c).1 (spendApply tr bm (si, bals) rel i cblk c).1 := by
+  refine ⟨?_, ?_, h.balance, h.sync, h.syncedTo, h.status, h.adr, ?_, ?_, ?_, ?_, h.txS, h.tx, h.blk⟩
+  · show AMap.erase si.unspent _ = AMap.erase gi.unspent _
+    rw [h.unspent]
+  · unfold spendApply
+    dsimp only
+    rw [h.game]
+  · exact h.cred.put (v := { c with spent := true, spentBy := some ⟨tr.tx.id, bm, rel.index⟩ }) hsh
+      (fun _ => ⟨c, hgc, hsc, rfl⟩)
+  · exact (h.coins.put_credit _ (v := { c with spent := true, spentBy := some ⟨tr.tx.id, bm, rel.index⟩ }) hsh).erase_unspent _
+  · exact h.debS.put _ _
+  · exact h.deb.put (k := ⟨tr.tx.id, bm, rel.index⟩) rfl _
+
+theorem simInv_creditApply (h : SimInv addrs ready bm g s gi si) (p : Params) (bals : Bals) (tr : TxRec) {rel : Rel}
+    (ha : addrs.contains rel.out.addr = false) :
+    SimInv addrs ready bm g s (creditApply p tr bm (gi, bals) rel).1 (creditApply p tr bm (si, bals) rel).1 := by
+  refine ⟨?_, h.game, h.balance, h.sync, h.syncedTo, h.status, ?_, ?_, ?_, h.debS, h.deb, h.txS, h.tx, h.blk⟩
+  · show AMap.put si.unspent _ _ = AMap.put gi.unspent _ _
+    rw [h.unspent]
+  · unfold creditApply
+    dsimp only
+    rw [h.adr]
+  · exact h.cred.put (k := ⟨tr.tx.id, bm, rel.index⟩) (v := minedCreditOf p tr.tx.cb rel) ha (fun hne => absurd rfl hne)
+  · refine (h.coins.put_credit ⟨tr.tx.id, bm, rel.index⟩ (v := minedCreditOf p tr.tx.cb rel) ha).put_unspent
+      rel.wallet tr.tx.id rel.index bm ?_
+    intro c hc
+    rw [AMap.get_put, if_pos rfl] at hc
+    cases hc; exact ha
+
+theorem simInv_gameOne (h : SimInv addrs ready bm g s gi si) (tr : TxRec) (rel : Rel) :
+    SimInv addrs ready bm g s (gameOne tr bm gi rel) (gameOne tr bm si rel) := by
+  refine ⟨h.unspent, ?_, h.balance, h.sync, h.syncedTo, h.status, h.adr, h.cred, h.coins, h.debS, h.deb,
+    h.txS, h.tx, h.blk⟩
+  show AMap.put si.game _ _ = AMap.put gi.game _ _
+  rw [h.game]
 
 end MW.Lemmas.RemoveSim
